@@ -272,8 +272,8 @@ Proof. split; vm_compute; reflexivity. Qed.
 
 
 (* ====================================================================================== *)
-(* the message-level statements (PENDING as theorems; evaluated by the harness on every     *)
-(* generated message, and on the instance below)                                            *)
+(* the message-level statements, executable forms (theorems: Proofs/C05MsgEmit.v            *)
+(* emit_accepted, Proofs/C05AccMain.v reads_canonical; evaluated on the instance below)      *)
 (* ====================================================================================== *)
 (* C05_emit, executable form: the text of to_json(m) is accepted by the reference parser (as specified)
    and denotes ...; the harness compares the result with the abstract value of m *)
